@@ -112,7 +112,9 @@ func (x *XmlNode) Next(r node.ListRequest) (node.Node, []val.Value, error) {
 				if !found {
 					break
 				}
-				if k.String() != v {
+				// compare as values of the key leaf's type: "1.50" is the decimal 1.5
+				kv, err := node.NewValue(r.Meta.KeyMeta()[i].Type(), v)
+				if err != nil || !val.Equal(k, kv) {
 					break
 				}
 				isLastKey := i == (len(r.Key) - 1)
